@@ -452,3 +452,55 @@ PROPS["C16"] = {"jobs": c16_jobs, "assumptions": COMMON_ASSUME + [
     "operation sequences are concrete shapes: hand-picked sequences (quick), all sequences of length <= 2 over a 13-operation alphabet plus 120 VERIF_SEED-chosen sequences of length 4-6 (thorough); packet contents are symbolic",
     "the oracle is a ghost map kept by the harness (device -> latest tag, interface -> latest tag), compared as a map (entry order is not part of the property)"],
     "level": "bounded symbolic model checking of operation sequences on the real Status object against a ghost map"}
+
+
+# ------------------------------------------------------------------ TECMP (C15, C02 family iii)
+def tecmp_jobs():
+    jobs = []
+
+    def add(n, mt, dt=-1, dlc=-1, decl=-1, tier="quick"):
+        e = max((n - 40) // 12, 0) + 2
+        jobs.append(Job("tecmp.cpp", "h_tecmp", defs={"N": n, "MT": mt, "DT": dt, "DLC": dlc, "DECL": decl}, unwind=220,
+                        unwindset={("TECMP7Decoder", None): e + 1, ("_M_realloc_insert", None): e + 1, ("_M_release", None): 3, ("_Sp_counted", None): 3},
+                        tier=tier, in_max=n + 8, mem_gb=6,
+                        sym="every frame byte except byte 0 (= 0, TECMP routing), the message type byte, the declared payload length and (data messages) the data type and the inner "
+                            "dlc / data-length byte: device id, counter, version, flags, interface id, timestamp, data flags, arbitration id / pid, all data bytes; "
+                            "bus status: data type symbolic over all 65536 values",
+                        outside="frames > 76 bytes; message type bytes other than 0,2,3,4,0x0A,0x55,0xFF; TECMP capture-module status (message type 1): its conversion calls "
+                                "std::stringstream / std::to_string, which live in libstdc++.so and have no IR"))
+
+    # bus status: data type symbolic, every size
+    for n in range(0, 77):
+        add(n, 2, tier="quick" if n in (12, 28, 33, 39, 40, 51, 52, 64, 76) else "thorough")
+    # unsupported message kinds
+    for mt in (0, 4, 0x0A, 0x55, 0xFF):
+        for n in (28, 40, 60):
+            add(n, mt, tier="quick" if (mt, n) in ((0x55, 40), (0, 40), (4, 28)) else "thorough")
+    # data messages: data type and inner length byte are shapes
+    for dt in (2, 3, 4):
+        hdr = 2 if dt == 4 else 5
+        for n in (0, 27, 28, 28 + hdr - 1, 28 + hdr, 28 + hdr + 1, 28 + hdr + 8, 28 + hdr + 9, 28 + hdr + 12, 28 + hdr + 20):
+            p = max(n - 28, 0)
+            cand = sorted({0, 1, 8, 9, max(p - hdr, 0), max(p - hdr, 0) + 1, max(p - hdr - 1, 0), max(p - hdr - 3, 0), 255})
+            for dlc in cand:
+                q = (dt in (2, 4)) and n in (28 + hdr + 8, 28 + hdr + 12, 28 + hdr - 1, 28 + hdr) and dlc in (0, 8, max(p - hdr, 0), max(p - hdr, 0) + 1, max(p - hdr - 1, 0))
+                add(n, 3, dt=dt, dlc=dlc, tier="quick" if q else "thorough")
+    for dt in (0, 1, 5, 8, 0x10, 0x20, 0x80, 0xFF, 0xFF00, 0xFFFF):
+        add(44, 3, dt=dt, dlc=8, tier="quick" if dt in (0x80, 0xFFFF, 8) else "thorough")
+    for decl in (0, 1, 17):
+        add(44, 3, dt=2, dlc=8, decl=decl, tier="quick" if decl in (0, 17) else "thorough")
+    seen, out = set(), []
+    for j in jobs:
+        k = tuple(sorted(j.defs.items()))
+        if k not in seen:
+            seen.add(k)
+            out.append(j)
+    return out
+
+
+PROPS["C15"] = {"jobs": tecmp_jobs, "assumptions": COMMON_ASSUME + [
+    "frame size and the TECMP message type byte are concrete shape parameters (bus status 2, data 3, unsupported kinds 0, 4, 0x0A, 0x55, 0xFF); the data type is symbolic over all 65536 values",
+    "TECMP capture-module status conversion (message type 1) is outside this check: std::stringstream/std::to_string are out-of-line in libstdc++.so (no IR to encode)",
+    "oracle: an independent TECMP parse in harness/tecmp.cpp"],
+    "level": "bounded symbolic model checking of TECMP decode+convert against an independent parse, incl. inconsistent inner lengths"}
+PROPS["C02"]["jobs"] = lambda: c02_jobs() + [j for j in tecmp_jobs()]
